@@ -258,7 +258,14 @@ func docxPara(p *lpara, need map[string]bool) *Node {
 		ppr.Add(wval("w:pStyle", style))
 	}
 	if p.Kind == "li" {
-		ppr.Add(E("w:numPr", wval("w:ilvl", strconv.Itoa(p.Level)), wval("w:numId", strconv.Itoa(p.NumID))))
+		switch p.RawLevel {
+		case "":
+			ppr.Add(E("w:numPr", wval("w:ilvl", strconv.Itoa(p.Level)), wval("w:numId", strconv.Itoa(p.NumID))))
+		case "omit": // no w:ilvl: the item is at level 0 (ECMA-376 17.9.3)
+			ppr.Add(E("w:numPr", wval("w:numId", strconv.Itoa(p.NumID))))
+		default:
+			ppr.Add(E("w:numPr", wval("w:ilvl", rawAttr(p.RawLevel)), wval("w:numId", strconv.Itoa(p.NumID))))
+		}
 	}
 	if outline >= 0 {
 		ppr.Add(wval("w:outlineLvl", strconv.Itoa(outline)))
@@ -289,7 +296,9 @@ func docxTable(t *ltable, need map[string]bool) *Node {
 			pos := [2]int{a, b}
 			if cell := t.Cells[pos]; cell != nil {
 				tcPr := E("w:tcPr", E("w:tcW").A("w:w", strconv.Itoa(2000*cell.CS)).A("w:type", "dxa"))
-				if cell.CS > 1 {
+				if cell.RawCS != "" {
+					tcPr.Add(wval("w:gridSpan", rawAttr(cell.RawCS)))
+				} else if cell.CS > 1 {
 					tcPr.Add(wval("w:gridSpan", strconv.Itoa(cell.CS)))
 				}
 				if cell.RS > 1 {
